@@ -120,6 +120,15 @@ def suite_codebooks(tier):
                 if not mine():
                     continue
                 yield ('scalar', where, lens, lookup), (lambda a=(lens, lookup, where): build_scalar(*a))
+    # lattice (lookup 1) books whose entry count is an exact power v**dim, and its neighbours: the number of values per dimension is floor(entries**(1/dim)),
+    # which a floating-point estimate gets wrong by one unless it is corrected both ways
+    for dim, vs in ((3, (2, 3, 4, 5, 6, 7, 10)), (5, (2, 3)), (6, (2, 3)), (7, (2,)), (9, (2,)), (4, (3, 5)), (2, (15, 31))):
+        for v in vs:
+            for entries in (v ** dim - 1, v ** dim, v ** dim + 1):
+                if entries < 2 or entries > 1100:
+                    continue
+                if mine():
+                    yield ('lattice_pow', dim, v, entries), (lambda a=(dim, entries): build_lattice(*a))
     # long codewords: a 32-bit deep tree, a 300-entry book (first-table + search path of the library's decoder), a 2-entry 1-bit book
     for name, lens in (('deep32', list(range(1, 32)) + [32, 32]), ('n300', vsynth.complete_lengths(300)), ('n1000', vsynth.complete_lengths(1000))):
         if mine():
@@ -167,6 +176,19 @@ def build_scalar(lens, lookup, where):
             s.floors[0] = vspec.Floor1([0, 0], [2], [1], [nb], [[1, nb + 1]], fl.mult, fl.rangebits, list(fl.xs)[:4])
             f = vsynth.Filler(fixed=fill_used(**{'f1.master': walk}))
     return vsynth.Stream(s, pk_seq(s, [0, 1, 0, 1], f))
+
+
+def build_lattice(dim, entries):
+    nm = vspec.lookup1_values(entries, dim)
+    bk = vspec.Codebook(dim, vsynth.complete_lengths(entries), 1, minv=vsynth.fpack(-2.0), delta=vsynth.fpack(0.25), value_bits=5, sequence_p=0, mults=[(k * 3 + 1) % 32 for k in range(nm)])
+    s = vsynth.base_setup(channels=1, bs0=64, bs1=128, restype=1, psize=dim * 2 if (dim * 2) <= 32 and 32 % (dim * 2) == 0 else dim, vqdim=dim)
+    s.books[2] = bk
+    r = s.residues[0]
+    # the residue covers a multiple of the partition size inside the short block
+    s.residues[0] = vspec.Residue(1, 0, (32 // r.psize) * r.psize, r.psize, 2, 0, [0, 1], [[-1] * 8, [2] + [-1] * 7])
+    cnt = itertools.count()
+    f = vsynth.Filler(fixed=fill_used(**{'res.class': 1, 'res.vq': lambda c, d: (next(cnt) * 7) % len(d.lengths)}))
+    return vsynth.Stream(s, pk_seq(s, [0, 1, 0], f))
 
 
 def build_bigbook(lens):
@@ -243,9 +265,11 @@ def suite_floor0(tier):
                                     s.books.append(vsynth.lattice_book(dim, 2, minv=mn, delta=dl, sequence_p=1) if k % 2 == 0 else
                                                    vspec.Codebook(dim, vsynth.complete_lengths(3), 2, minv=vsynth.fpack(mn), delta=vsynth.fpack(dl), value_bits=2, sequence_p=1,
                                                                   mults=[(j * 2 + e) % 3 for e in range(3) for j in range(dim)]))
-                                s.floors = [vspec.Floor0(order, rate, bm, ab, 20, list(range(3, 3 + nb)))]
+                                # the floor's own rate field (16 bits) is what the Bark map is built from; it need not equal the audio sample rate
+                                frate = rate if (order + bm + ab + nb + dim) % 3 else {8000: 11025, 44100: 32000}[rate]
+                                s.floors = [vspec.Floor0(order, frate, bm, ab, 20, list(range(3, 3 + nb)))]
                                 f = vsynth.Filler(fixed={'f0.amp': lambda c, d: 1 + (c * 3) % min((1 << d) - 1, 5) if d else 0})
-                                yield ('f0', order, bm, ab, nb, dim, rate, b0), vsynth.Stream(s, pk_seq(s, [0, 1, 1, 0], f))
+                                yield ('f0', order, bm, ab, nb, dim, rate, frate, b0), vsynth.Stream(s, pk_seq(s, [0, 1, 1, 0], f))
 
 
 def suite_residue(tier):
